@@ -238,7 +238,13 @@ func VerifC11_G1_outputs() {
 	nodes := model.BuildNodeMap{}
 	for i := 0; i < k; i++ {
 		specs[i] = outMenu[sym.Choice(fmt.Sprintf("out_%d", i), len(outMenu))]
-		targets[i] = &model.Target{Label: mkLabel(i), Outputs: []model.Output{model.NewOutput(specs[i].typ, specs[i].id)}}
+		targets[i] = &model.Target{Label: mkLabel(i)}
+		if i == 0 && specs[i].typ == "file" && sym.Choice("declared_as_bin_output_0", 2) == 1 {
+			// a bin output is an output like any other as far as conflicts go
+			targets[i].BinOutput = model.NewOutput("file", specs[i].id)
+		} else {
+			targets[i].Outputs = []model.Output{model.NewOutput(specs[i].typ, specs[i].id)}
+		}
 		nodes[mkLabel(i)] = targets[i]
 	}
 	adj := make([][]bool, k)
